@@ -7,6 +7,7 @@
   a few ulps of an edge) is decided by the harness's edge probes on the real code.
 -/
 import Hg.Proofs.FillLaws
+import Hg.Proofs.HistoryLaws
 import Hg.Props.Examples
 
 namespace Hg.C05
@@ -33,6 +34,18 @@ theorem inv_scale (t : Agg) (f : Val) (hg : good t = true) (hi : inv t = true) (
 theorem inv_fillAll (z : Agg) (s : List (Datum × Val)) (hz : isZeroTree z = true)
     (hrun : goodRun z s = true) : inv (fillAll z s) = true :=
   Hg.inv_fillAll z s hz hrun
+
+/-- **every reachable state**: after any history of fill / + / += / * / zero() / copy() over a pool of aggregators
+derived from one empty live tree (Hg.Model.History), every aggregator of the pool satisfies the invariants, is
+well-formed and has the static structure of the empty tree.  `okRun`: every fill has a finite or gated weight and does
+not raise, every scaling factor is finite or gated; `goodFills`: every fill lands in a `good` state — needed because a
+Select / Fraction whose quantity is +inf hands an infinite weight to its child without raising
+(`Hg.Hist.Counter.needs_goodFills` is the kernel-checked counterexample to the statement without it). -/
+theorem inv_history (z : Agg) (ops : List HOp)
+    (hz : isZeroTree z = true) (hg : good z = true) (ht : hasTmpl z = true) (hn : noBins z = true)
+    (hok : okRun [z] ops = true) (hgf : goodFills [z] ops = true) :
+    ∀ a ∈ runH z ops, inv a = true ∧ good a = true ∧ sameBase z a = true :=
+  Hg.inv_history z ops hz hg ht hn hok hgf
 
 /-- routing of a Bin puts every non-NaN value in exactly one of under / over / a regular bin whose
 index is below `n` (the index is clamped to the last bin, mirroring the repaired code) -/
